@@ -315,7 +315,9 @@ def unroll_array_loops(blocks, locals_, max_len=4):
         head = None
         cur = t['target']
         pre = None      # last block of the chain between the into_iter call and the loop head (its statements must be kept)
-        for _ in range(4):
+        zipped = None   # `[a, b].into_iter().zip([c, d])`: the walk yields the pairs (a, c), (b, d)
+        ident_calls = []
+        for _ in range(6):
             b2 = blocks[cur]
             for st in b2['stmts']:
                 if st['k'] == 'assign' and st['rv'].get('k') == 'use' and st['rv']['op'].get('k') in ('move', 'copy') \
@@ -326,6 +328,33 @@ def unroll_array_loops(blocks, locals_, max_len=4):
                 head = cur
                 break
             if t2['k'] == 'goto':
+                pre = cur
+                cur = t2['target']
+                continue
+            if t2['k'] == 'call' and (t2.get('callee') or {}).get('name') == 'zip' and len(t2['args']) == 2 and zipped is None \
+                    and not by_ref and once_call is None and t2.get('target') is not None and t2['dest'] and not t2['dest']['proj'] \
+                    and _plain_local(t2['args'][0]) in it_locals and _plain_local(t2['args'][1]) is not None:
+                ds2 = _defs_of(blocks, _plain_local(t2['args'][1]))
+                zip_copied = False      # a Copy array (shared references) may be used again elsewhere: its definition stays
+                for _hop in range(5):
+                    if len(ds2) == 1 and ds2[0][1] == 'stmt' and ds2[0][2]['rv'].get('k') == 'use' and ds2[0][2]['rv']['op'].get('k') in ('move', 'copy') \
+                            and _plain_local(ds2[0][2]['rv']['op']) is not None:
+                        zip_copied = zip_copied or ds2[0][2]['rv']['op'].get('k') == 'copy'
+                        ds2 = _defs_of(blocks, _plain_local(ds2[0][2]['rv']['op']))
+                    else:
+                        break
+                if len(ds2) == 1 and ds2[0][1] == 'stmt' and ds2[0][2]['rv'].get('k') == 'agg' and ds2[0][2]['rv'].get('agg') == 'array' \
+                        and len(ds2[0][2]['rv']['ops']) == len(ops):
+                    zipped = (cur, ds2[0][2], zip_copied)
+                    it_locals.add(t2['dest']['local'])
+                    pre = cur
+                    cur = t2['target']
+                    continue
+            if t2['k'] == 'call' and (t2.get('callee') or {}).get('name') == 'into_iter' and len(t2['args']) == 1 and zipped is not None \
+                    and t2.get('target') is not None and t2['dest'] and not t2['dest']['proj'] and _plain_local(t2['args'][0]) in it_locals:
+                # `for (a, b) in xs.into_iter().zip(ys)`: the for loop's own into_iter on the Zip is the identity
+                ident_calls.append(cur)
+                it_locals.add(t2['dest']['local'])
                 pre = cur
                 cur = t2['target']
                 continue
@@ -383,6 +412,11 @@ def unroll_array_loops(blocks, locals_, max_len=4):
                 locals_.append({'ty': {'k': 'ref', 'mut': False, 'ty': UNK_TY, 's': '&?'}, 'mut': True})
                 pre_st.append({'k': 'assign', 'place': _pl(rl), 'rv': {'k': 'ref', 'mut': False, 'place': op['place']}, 'span': t['span']})
                 op = _mv(rl)
+            if zipped is not None:
+                tl = len(locals_)
+                locals_.append({'ty': UNK_TY, 'mut': True})
+                pre_st.append({'k': 'assign', 'place': _pl(tl), 'rv': {'k': 'agg', 'agg': 'tuple', 'ops': [op, zipped[1]['rv']['ops'][k]]}, 'span': t['span']})
+                op = _mv(tl)
             entry = {'cleanup': False, 'stmts': pre_st + [{'k': 'assign', 'place': _pl(nl), 'rv': _agg(OPT, 'Some', 1, [op]), 'span': t['span']}],
                      'term': {'k': 'goto', 'target': remap[body0]}}
             blocks.append(entry)
@@ -407,9 +441,18 @@ def unroll_array_loops(blocks, locals_, max_len=4):
         if once_call is not None:
             blocks[once_call[0]]['term'] = {'k': 'goto', 'target': once_call[2]['target']}
         op_locals = set(o['place']['local'] for o in ops if o.get('k') in ('move', 'copy') and not o['place']['proj'])
+        agg_stmts = [agg_stmt]
+        if zipped is not None:
+            # the zip call is gone too (its block keeps its statements), and so is the second array
+            blocks[zipped[0]]['term'] = {'k': 'goto', 'target': blocks[zipped[0]]['term']['target']}
+            for ic in ident_calls:
+                blocks[ic]['term'] = {'k': 'goto', 'target': blocks[ic]['term']['target']}
+            if not zipped[2]:
+                agg_stmts.append(zipped[1])
+            op_locals |= set(o['place']['local'] for o in zipped[1]['rv']['ops'] if o.get('k') in ('move', 'copy') and not o['place']['proj'])
         for b_ in blocks:
             # .. and their storage must outlive the place where the array used to swallow them
-            b_['stmts'] = [x for x in b_['stmts'] if x is not agg_stmt and not (x['k'] == 'dead' and x.get('local') in op_locals)]
+            b_['stmts'] = [x for x in b_['stmts'] if not any(x is a_ for a_ in agg_stmts) and not (x['k'] == 'dead' and x.get('local') in op_locals)]
         changed = True
     return changed
 
@@ -718,6 +761,14 @@ def desugar_entry_handles(blocks, locals_):
                             refs[st['place']['local']] = refs[pl['local']]
                     elif rv.get('k') == 'ref' and rv['place']['local'] in handles and not rv['place']['proj']:
                         refs[st['place']['local']] = rv['place']['local']
+                    elif rv.get('k') == 'ref' and rv['place']['local'] == E and len(rv['place']['proj']) == 2 \
+                            and rv['place']['proj'][0].get('k') == 'downcast' and rv['place']['proj'][0].get('variant') in ('Vacant', 'Occupied') \
+                            and rv['place']['proj'][1].get('k') == 'field' and st['place']['local'] not in refs:
+                        # `Entry::Vacant(v) if guard => ..`: while the guard runs the handle is only borrowed in place
+                        ph = len(locals_)
+                        locals_.append({'ty': UNK_TY, 'mut': True})
+                        handles[ph] = rv['place']['proj'][0]['variant']
+                        refs[st['place']['local']] = ph
                     elif rv.get('k') == 'ref' and rv['place']['local'] in refs and [e.get('k') for e in rv['place']['proj']] == ['deref']:
                         refs[st['place']['local']] = refs[rv['place']['local']]
             if (len(handles), len(refs)) == n0:
@@ -748,7 +799,9 @@ def desugar_entry_handles(blocks, locals_):
             used = [l for l in tracked if _uses_local(tt, l)]
             if not used:
                 continue
-            if tt['k'] == 'drop' and tt['place']['local'] in tracked and not tt['place']['proj']:
+            if tt['k'] == 'drop' and tt['place']['local'] in tracked and (not tt['place']['proj'] or (
+                    tt['place']['local'] == E and tt['place']['proj'][0].get('k') == 'downcast')):
+                # (a handle moved out only on some paths leaves a drop of the payload in place on the others)
                 plan.append(('drop-term', bi, None))
                 continue
             if tt['k'] == 'call' and tt.get('callee') and tt['args'] and tt.get('target') is not None and not tt['dest']['proj']:
